@@ -307,11 +307,27 @@ def run(ctx, rep):
             pname = b.names.get(rp[0], "")
             if "mem_pos" in pname or rp[1] == (".2",):
                 kind = "offset parameter %s%s" % (pname, "".join(rp[1]))
-        elif src[0] == "call" and src[1] and src[1].endswith("ScanCDP>::current_mem_pos"):
+        elif src[0] == "call" and src[1] and (src[1].endswith("ScanCDP>::current_mem_pos") or src[1].endswith("MemPosTracker::current_mem_address")) \
+                and s["fn"].replace("<", "").startswith("alice_protocol_reader::"):
             kind = None
-            rep.bad("R7.5", "R7.5|offset|%s|%s" % (fnshort, (emit.codes_in(tm) or ["-"])[0]),
-                    "the message offset is the scanner position *after* the tracker was advanced past this packet (start of the next RDH, "
-                    "beyond the end of a truncated input), not the start of the RDH the message is about", where(s["sp"]))
+            # keyed by the error code (not by the function that happens to hold the format!): the codes in the template,
+            # or — when the code is a parameter of a shared reporting helper — the code literals its callers pass
+            codes_ = emit.codes_in(tm)
+            if not codes_:
+                for q_ in sorted(f.fns):
+                    tq = ev.tb(q_) if f.fns[q_].get("thir") else None
+                    if tq is None:
+                        continue
+                    for _, c_ in tq.calls():
+                        if (c_.get("res") or c_.get("fn")) == s["fn"]:
+                            for a_ in c_["args"]:
+                                for _, x_ in tq.walk(a_):
+                                    if x_["k"] == "Lit" and re.fullmatch(r"E\d{2,4}", x_.get("str") or ""):
+                                        codes_.append(x_["str"])
+            for code_ in sorted(set(codes_)) or ["-"]:
+                rep.bad("R7.5", "R7.5|offset|scanner-position|%s" % code_,
+                        "the message offset is the scanner position *after* the tracker was advanced past this packet (start of the next RDH, "
+                        "beyond the end of a truncated input), not the start of the RDH the message is about", where(s["sp"]))
             continue
         rep.check(kind is not None, "R7.5", "R7.5|offset|%s|%s" % (fnshort, (emit.codes_in(tm) or ["-"])[0]),
                   "leading offset is a %s" % kind, where(s["sp"]), "leading offset of the message is %s — not a word position, packet offset or frame start" % sso[:140])
